@@ -74,6 +74,10 @@ func (s ICEServer) urls() ([]*stun.URI, error) { //nolint:cyclop
 }
 
 func iceserverUnmarshalUrls(val any) (*[]string, error) {
+	if val == nil {
+		// a nil URL list is marshaled as null
+		return &[]string{}, nil
+	}
 	s, ok := val.([]any)
 	if !ok {
 		return nil, errInvalidICEServer
